@@ -22,14 +22,14 @@ SCHED_FLAGS = "--cfg graaf_verif --cfg graaf_verif_shuttle"
 # runs per (property, tier) for the shuttle engine; fixed counts (never a time
 # box) so that one VERIF_SEED always denotes the same set of runs
 PLAN = {
-    "C01": {"quick": 60000, "thorough": 1500000},
-    "C11": {"quick": 4000, "thorough": 60000},
-    "C12": {"quick": 6000, "thorough": 80000},
+    "C01": {"quick": 160000, "thorough": 3000000},
+    "C11": {"quick": 16000, "thorough": 120000},
+    "C12": {"quick": 24000, "thorough": 200000},
     "C13": {"quick": 11694, "thorough": 35082},  # lane L: the whole catalogue once / three times (other schedulers)
-    "C14": {"quick": 4014, "thorough": 11310},  # 6x / 10x the enumerated grid (669 / 1131 cells)
-    "C15": {"quick": 8000, "thorough": 100000},
-    "C17": {"quick": 24000, "thorough": 160000},
-    "C20": {"quick": 24000, "thorough": 500000},
+    "C14": {"quick": 11302, "thorough": 70015},  # 2x / 5x the enumerated grid (5651 / 14003 cells)
+    "C15": {"quick": 16000, "thorough": 160000},
+    "C17": {"quick": 40000, "thorough": 200000},
+    "C20": {"quick": 60000, "thorough": 1000000},
 }
 
 TITLES = {}
@@ -176,7 +176,7 @@ def run_workers(binary, pid, tier, runs, seed, workdir, njobs, extra=None):
         se.close()
         skip = []
         while rc != 0:
-            idx = last_begin(os.path.join(workdir, "shard%02d.stdout" % k))
+            idx = last_begin(out + ".current")
             if idx is None or idx in skip:
                 log("HARNESS-ERROR worker shard %d exited %s without a BEGIN line to attribute it to" % (k, rc))
                 raise SystemExit(2)
@@ -313,7 +313,7 @@ RULES = {
            "non-trivial = D has >= 2 vertices, or a threaded execution with >= 2 workers and more rows than workers; "
            "distinct = distinct digests",
     "C14": "the (generator, parameter) grid is enumerated completely (orders 0..=70 quick / 0..=136 thorough, biclique "
-           "(m,n) in 0..=12 squared, trivial/claw/utility, inadmissible parameters must panic) in all four "
+           "(m,n) with m+n <= 100 quick / 160 thorough, trivial/claw/utility, inadmissible parameters must panic) in all four "
            "representations; AdjacencyList::complete additionally under sampled (CPU count, scheduler) configurations; "
            "non-trivial = grid cell with a non-empty arc set, or threaded execution with >= 2 workers and more rows than "
            "workers; distinct = distinct digests of the cell resp. (cell, configuration)",
